@@ -126,7 +126,7 @@ class Check:
         return code
 
     def write_replay(self, v):
-        d = os.path.join(VERIF, "replay", self.pid)
+        d = os.path.join(os.environ.get("VERIF_OUT_DIR", VERIF), "replay", self.pid)
         os.makedirs(d, exist_ok=True)
         h = hashlib.sha256(v["key"].encode()).hexdigest()[:12]
         p = os.path.join(d, h + ".json")
@@ -136,7 +136,7 @@ class Check:
         return p
 
     def write_evidence(self, n_viol, listed):
-        d = os.path.join(VERIF, "evidence")
+        d = os.path.join(os.environ.get("VERIF_OUT_DIR", VERIF), "evidence")
         os.makedirs(d, exist_ok=True)
         distinct = len({k for (_r, k, _f, nt) in self.holds if nt})
         samples = self.samples or [{"obligation": k, "derived_fact": f} for (_r, k, f, nt) in self.holds if f][:12]
